@@ -320,6 +320,15 @@ class AbstractOnlineSpecification(AbstractSpecification):
             # the STL pastifier works in the default unit of the specification; next steps by one sample
             interpreter = self.online_interpreter
             self.pastifier.sample_step = Fraction(interpreter.sampling_period) * self.ast.U[interpreter.sampling_period_unit] / self.ast.U[self.ast.unit]
+            # bounds that are not multiples of the sampling period are rejected; check the bounds as written,
+            # the rewriting can turn them into multiples (eventually[0.5,1.5] becomes once[0,1])
+            interpreter.ast = self.ast
+            nodes = list(self.ast.specs)
+            while nodes:
+                node = nodes.pop()
+                if hasattr(node, 'begin_unit'):
+                    interpreter.time_unit_transformer(node)
+                nodes.extend(node.children)
         self.ast = self.pastifier.pastify(self.ast)
 
     # forwarding to interpreter
